@@ -173,7 +173,33 @@ def _ohe_finding(case):
     return None
 
 
+def _run_ohe_literal(rep, lim):
+    if not LITERAL_EDGES:
+        return
+    if True:
+        # LITERAL: "every string" includes the empty one; "all dtypes" includes bfloat16;
+        # "all ASCII alphabets" includes NUL
+        for alphabet, ignore in [(['A', 'C', 'G', 'T'], ['N']), (['x'], []), (['a', 'b', 'c'], ['-'])]:
+            for dt in (torch.int8, torch.float32):
+                case = {'kind': 'ohe', 'alphabet': alphabet, 'ignore': ignore, 's': '', 'dtype': _dn(dt)}
+                v = check_ohe(case)
+                rep.case(('ohe-empty', tuple(alphabet), _dn(dt)), nontrivial=False, section='ohe-literal-edges')
+                lim.report(v, case, _ohe_finding(case))
+        for s in ['A', 'ACGT', 'NACGTN', 'GATTACA', 'TTTT']:
+            case = {'kind': 'ohe', 'alphabet': ['A', 'C', 'G', 'T'], 'ignore': ['N'], 's': s, 'dtype': 'bfloat16'}
+            v = check_ohe(case)
+            rep.case(('ohe-bf16', s), section='ohe-literal-edges')
+            lim.report(v, case, _ohe_finding(case))
+        for s in ['\x00', 'B\x00B', '\x00\x00B']:
+            case = {'kind': 'ohe', 'alphabet': ['\x00', 'B'], 'ignore': [], 's': s, 'dtype': 'int8'}
+            v = check_ohe(case)
+            rep.case(('ohe-nul', s), section='ohe-literal-edges')
+            lim.report(v, case, _ohe_finding(case))
+
+
+
 def _run_ohe(rep, lim):
+    _run_ohe_literal(rep, lim)
     rng, thorough = rep.rng, rep.tier == 'thorough'
     small_syms, small_len, big_len = (6, 6, 4) if thorough else (4, 6, 3)
     configs = []
@@ -200,7 +226,7 @@ def _run_ohe(rep, lim):
                     case = {'kind': 'ohe', 'alphabet': alphabet, 'ignore': ignore, 's': s, 'dtype': _dn(dt)}
                     v = check_ohe(case)
                     rep.case(('ohe', tuple(alphabet), tuple(ignore), s, _dn(dt)), nontrivial=L > 1,
-                             sample=case if L == 3 else None, section='ohe-roundtrip')
+                             sample=case, section='ohe-roundtrip')
                     lim.report(v, case, _ohe_finding(case))
     rep.mark_exhaustive('one_hot_encode/characters round trip on every string of the listed lengths for %d (alphabet, ignore) pairs' % len(configs))
     # rejection
@@ -235,27 +261,6 @@ def _run_ohe(rep, lim):
         v = check_ohe(case)
         rep.case(('ohe-long', k), section='ohe-long')
         lim.report([x[:300] for x in v], case, _ohe_finding(case))
-    if LITERAL_EDGES:
-        # LITERAL: "every string" includes the empty one; "all dtypes" includes bfloat16;
-        # "all ASCII alphabets" includes NUL
-        for alphabet, ignore in [(['A', 'C', 'G', 'T'], ['N']), (['x'], []), (['a', 'b', 'c'], ['-'])]:
-            for dt in (torch.int8, torch.float32):
-                case = {'kind': 'ohe', 'alphabet': alphabet, 'ignore': ignore, 's': '', 'dtype': _dn(dt)}
-                v = check_ohe(case)
-                rep.case(('ohe-empty', tuple(alphabet), _dn(dt)), nontrivial=False, section='ohe-literal-edges')
-                lim.report(v, case, _ohe_finding(case))
-        for s in ['A', 'ACGT', 'NACGTN', 'GATTACA', 'TTTT']:
-            case = {'kind': 'ohe', 'alphabet': ['A', 'C', 'G', 'T'], 'ignore': ['N'], 's': s, 'dtype': 'bfloat16'}
-            v = check_ohe(case)
-            rep.case(('ohe-bf16', s), section='ohe-literal-edges')
-            lim.report(v, case, _ohe_finding(case))
-        for s in ['\x00', 'B\x00B', '\x00\x00B']:
-            case = {'kind': 'ohe', 'alphabet': ['\x00', 'B'], 'ignore': [], 's': s, 'dtype': 'int8'}
-            v = check_ohe(case)
-            rep.case(('ohe-nul', s), section='ohe-literal-edges')
-            lim.report(v, case, _ohe_finding(case))
-
-
 # ----------------------------------------------------------------------------------------------
 # reverse_complement
 # ----------------------------------------------------------------------------------------------
@@ -346,7 +351,7 @@ def _run_revcomp(rep, lim):
                         'dtype': _dn(DTYPES[n % len(DTYPES)])}
                 v = check_revcomp(case)
                 rep.case(('rc', tuple(alphabet), tuple(partner), default, case['s']), nontrivial=L > 1,
-                         sample=case if L == 3 else None, section='revcomp')
+                         sample=case, section='revcomp')
                 lim.report(v, case, None)
     rep.mark_exhaustive('reverse_complement on every string of the listed lengths for %d complement maps' % len(configs))
     for k in range(1000 if thorough else 100):
@@ -423,12 +428,12 @@ def check_chunk(case):
             out.append('sequence %d: unchunk shape %s, expected (%d, >=%d)' % (i, tuple(u.shape), rows, covered))
             continue
         if u.shape[-1] < covered:
-            out.append('sequence %d (length %d, %d chunk(s), size %d, overlap %d): unchunk returned %d positions but complete chunks cover %d; first row got %s expected %s'
+            out.append('unchunk returned fewer positions than the complete chunks cover: sequence %d (length %d, %d chunk(s), size %d, overlap %d) got %d positions, %d covered; first row got %s expected %s'
                        % (i, lengths[i], K[i], size, overlap, u.shape[-1], covered, u[0].tolist()[:12], x[0, :covered].tolist()[:12]))
             continue
         if not torch.equal(u[:, :covered].to(torch.float64), x[:, :covered].to(torch.float64)):
             bad = (u[:, :covered].to(torch.float64) != x[:, :covered].to(torch.float64)).any(dim=0).nonzero().flatten().tolist()
-            out.append('sequence %d (length %d, %d chunk(s), size %d, overlap %d): positions %s not reproduced' % (i, lengths[i], K[i], size, overlap, bad[:10]))
+            out.append('unchunk(chunk(X)) does not reproduce covered positions: sequence %d (length %d, %d chunk(s), size %d, overlap %d), positions %s' % (i, lengths[i], K[i], size, overlap, bad[:10]))
     for x, x0 in zip(X, X0):
         if not torch.equal(x, x0):
             out.append('chunk/unchunk modified an input sequence')
@@ -489,7 +494,7 @@ def _run_chunk(rep, lim):
                 v = check_chunk(case)
                 Ks = [_n_chunks(L, size, overlap) for L in lengths]
                 rep.case(('chunk', size, overlap, tuple(lengths), case['rows'], case['dtype'], case['lform'], case['xform']),
-                         nontrivial=max(Ks) > 1 or overlap > 0, sample=case if (size == 5 and overlap == 2) else None,
+                         nontrivial=max(Ks) > 1 or overlap > 0, sample=case,
                          section='chunk-unchunk-%s' % ('multi' if len(lengths) > 1 else ('1chunk' if Ks[0] == 1 else '2chunks' if Ks[0] == 2 else '3chunks' if Ks[0] == 3 else 'many')))
                 _report_chunk(rep, lim, case, v)
     rep.mark_exhaustive('chunk/unchunk for every size 1-40 x overlap 0..size-1 with the listed chunk counts')
@@ -497,7 +502,6 @@ def _run_chunk(rep, lim):
 
 def run(rep):
     lim = _Lim(rep)
-    t_all = rep.budget_s
     # chunk first (cheap, holds the known defect), then the other sections
     _run_chunk(rep, lim)
     _run_revcomp(rep, lim)
